@@ -20,7 +20,7 @@ RULE = ("configs: random trees (depth <= 4, fan-out <= 4, at most ~40 lines, ind
         "literal text / literal text with tolerant whitespace runs for escape_chars+ignore_ws), for every calling form. Not sent to the model (implementation and "
         "oracle still run): the wo-child list form when the second character of p is not a valid expression (re.error, F07). "
         "regex_flags is not generated (not one of the property's flags). "
-        "ARGUMENT-FORM STREAMS (3 more queries per config, channel searchf, model Ccp.SearchForms): every expression may be written as a compiled "
+        "ARGUMENT-FORM STREAMS (2 more queries per config, channel searchf, model Ccp.SearchForms): every expression may be written as a compiled "
         "re.Pattern, as a BaseCfgLine of this parse or a foreign one (linenum, text), be omitted (None) or ill-typed (int); list arguments also as a "
         "tuple, lists of the wrong length / mixed element kinds; find_object_branches(regex_groups=True) with capture-group expressions "
         "((p), (p)|(zz) with a non-participating group, (\\S+)\\s*(\\S*)) x empty_branches x reverse; BaseCfgLine.re_search and "
@@ -531,7 +531,7 @@ def _cases(rng, tier):
         _, ch = ref_children(kept, T.cfg_delims(cfg["syntax"], cfg["delims"]))
         for _ in range(10):
             yield mk(cfg, rand_query(rng, cfg, kept, ch))
-        for _ in range(3):
+        for _ in range(2):
             yield mk(cfg, rand_form_query(rng, cfg, kept, ch))
         # the same (p, c, flags) through the list form and the two-argument form
         q = rand_query(rng, cfg, kept, ch, rng.choice(["p2", "c2", "w2"]))
